@@ -467,9 +467,9 @@ func charts(reports []*telemetryReport, cfg *config.Config) (*chartdata, error) 
 		result.Programs = append(result.Programs, prog)
 		for c, cdata := range pgdata {
 			count := &counter{
-				ID:     "charts:" + pg.Name + ":" + c.Name,
-				Name:   c.Name,
-				Data:   cdata,
+				ID:   "charts:" + pg.Name + ":" + c.Name,
+				Name: c.Name,
+				Data: cdata,
 				// A chart is built from counters, from the buckets of a counter
 				// prefix, or from stack counters of that name.
 				Active: cfg.HasCounter(pg.Name, c.Name) || cfg.HasCounterPrefix(pg.Name, c.Name) || cfg.HasStack(pg.Name, c.Name),
